@@ -30,7 +30,8 @@ def _mk(name, unique=True, wraps=True):
 
 W1, W2, W3 = _mk('W1'), _mk('W2'), _mk('W3')
 NW = _mk('NW', wraps=False)
-CLASSES = [W1, W2, W3, NW]
+W1S = type('W1S', (W1,), {})          # a subclass is a type of its own: its wrapper is applied as well
+CLASSES = [W1, W2, W3, NW, W1S]
 NC = len(CLASSES)
 LISTS = [[]] + [[i] for i in range(NC)] + [[i, j] for i in range(NC) for j in range(NC) if i != j] + [[0, 1, 0], [2, 2]]
 NLISTS = len(LISTS)
@@ -123,26 +124,31 @@ class _Target(object):
         return BODIES[self.bi]
 
 
-def _reroute(how, si, hi, bi, extra_env):
+# (route pattern, slash mode, requested path): exact; branch pattern reached without its slash / through repeated slashes in rewrite mode; strict
+PATH_VARIANTS = [('/x', 'redirect', '/x'), ('/x/', 'rewrite', '/x'), ('/x/', 'rewrite', '//x///'), ('/x/', 'strict', '/x/'), ('/x', 'rewrite', '/x/')]
+
+
+def _reroute(how, si, hi, bi, extra_env, pv=0):
     target = _Target(si, hi, bi)
+    patt, mode, path = PATH_VARIANTS[pv]
     if how == 0:
-        routes = [Route('/x', RerouteWSGI(target))]                 # used as the endpoint
+        routes = [Route(patt, RerouteWSGI(target))]                 # used as the endpoint
         mws = []
     elif how == 1:
         def ep():
             raise RerouteWSGI(target)                              # raised by the endpoint
-        routes, mws = [Route('/x', ep)], []
+        routes, mws = [Route(patt, ep)], []
     elif how == 2:
         class RaiseMW(Middleware):
             def request(self, next):
                 raise RerouteWSGI(target)                          # raised by a middleware
-        routes, mws = [Route('/x', lambda: Response('never'))], [RaiseMW()]
+        routes, mws = [Route(patt, lambda: Response('never'))], [RaiseMW()]
     else:
         def rn(context):
             raise RerouteWSGI(target)                              # raised by the render function
-        routes, mws = [Route('/x', lambda: {'a': 1}, rn)], []
-    app = Application(routes, middlewares=mws)
-    env = EnvironBuilder(path='/x', headers={'X-Custom': 'v'}).get_environ()
+        routes, mws = [Route(patt, lambda: {'a': 1}, rn)], []
+    app = Application(routes, middlewares=mws, slash_mode=mode)
+    env = EnvironBuilder(path=path, headers={'X-Custom': 'v'}).get_environ()
     for i in range(extra_env):
         env['verif.extra%d' % i] = object()
     before = dict(env)
@@ -163,13 +169,13 @@ def _reroute(how, si, hi, bi, extra_env):
     return got.get('status') == STATUSES[si] and got.get('headers') == HEADERS[hi] and out is BODIES[bi]
 
 
-def ob_reroute(how: int, si: int, hi: int, bi: int, extra_env: int) -> bool:
+def ob_reroute(how: int, si: int, hi: int, bi: int, extra_env: int, pv: int = 0) -> bool:
     with untraced():
-        return _reroute(how, si, hi, bi, extra_env)
+        return _reroute(how, si, hi, bi, extra_env, pv)
 
 
-def confirm_reroute(how, si, hi, bi, extra_env):
-    return not _reroute(how, si, hi, bi, extra_env)
+def confirm_reroute(how, si, hi, bi, extra_env, pv=0):
+    return not _reroute(how, si, hi, bi, extra_env, pv)
 
 
 def _dispatch_once(kind):
